@@ -6,7 +6,7 @@
         (compared through the message text of that sexp_raise)
    (K-outer) SPEC (coq/C01/Spec.v: must-value / must-error / either) vs the implementation under the
         ASan build, over a value lattice; after errors a probe program is evaluated in the same context."""
-import os, subprocess, json, time
+import os, subprocess, json, time, resource
 from vlib import build as B, scm, core
 from gen import c01_vmguards, c01_stack, c01_consts
 
@@ -417,6 +417,7 @@ def run(ctx):
     t0 = time.time()
     prims_stream(ctx, exe, d, rng, tconst["vals"], 700 if not ctx.thorough else 15000)
     ph["prims_stream"] = round(time.time() - t0, 1)
+    reader_depth_probe(ctx, dflt)
     t0 = time.time()
     stack_stream(ctx, exe, d, rng, tconst["vals"])
     ph["stack_stream"] = round(time.time() - t0, 1)
@@ -455,13 +456,42 @@ def utf8_count(b, off):
     return n
 
 
+def _big_stack():
+    """the sanitizer build has much larger C frames: give it the stack the normal build effectively has, so that the
+    analyzer's own depth bound (SEXP_MAX_ANALYZE_DEPTH) is what stops deep recursion, as in the normal build"""
+    soft, hard = resource.getrlimit(resource.RLIMIT_STACK)
+    want = 1 << 30
+    if hard != resource.RLIM_INFINITY:
+        want = min(want, hard)
+    resource.setrlimit(resource.RLIMIT_STACK, (want, hard))
+
+
+def reader_depth_probe(ctx, dflt):
+    """deeply nested source handed to the NORMAL build with the default C stack: it must end in an error object
+    (chibi prints it and exits 70) or a value, never in a signal"""
+    for depth, sig in ((5000, "reader:nesting-5000:crash"), (200000, "reader:nesting:c-stack-overflow")):
+        path = os.path.join(B.SCRATCH, "c01_depth.scm")
+        open(path, "w").write("(" * depth + ")" * depth + "\n")
+        try:
+            r = B.run_chibi(dflt, [path], timeout=120)
+            rc, out = r.returncode, (r.stdout + r.stderr)[-200:]
+        except subprocess.TimeoutExpired:
+            rc, out = "TIMEOUT", ""
+        ctx.count(1, key=("reader-depth", depth))
+        if rc not in (0, 70):
+            ctx.violation(sig, input="source text: %d times '(' then %d times ')'" % (depth, depth),
+                          expected="an error object (reported, exit status 70)", observed="rc=%s %s" % (rc, out),
+                          replay="python3 -c \"print('('*%d+')'*%d)\" > /var/tmp/c01_depth.scm; LD_LIBRARY_PATH=%s CHIBI_MODULE_PATH=%s/lib CHIBI_IGNORE_SYSTEM_PATH=1 %s/chibi-scheme /var/tmp/c01_depth.scm"
+                                 % (depth, depth, dflt, dflt, dflt))
+
+
 def run_harness(emb, d, lines):
     """answers per line; a dead process gives 'CRASH ...' for the line it died on and is restarted after it"""
     res = [None] * len(lines)
     lo = 0
     while lo < len(lines):
         r = subprocess.run([emb], input="\n".join(lines[lo:]) + "\n", capture_output=True, encoding="utf-8", errors="replace",
-                           env=B.chibi_env(d, ASAN_ENV), timeout=900)
+                           env=B.chibi_env(d, ASAN_ENV), timeout=900, preexec_fn=_big_stack)
         out = r.stdout.split("\n")
         if out and out[-1] == "":
             out.pop()
